@@ -3,7 +3,8 @@ import json, os
 import vlib
 from checks import servercommon as sc
 
-TRAPS = ["TrapAcceptedDuringShutdown", "TrapHandlerOutlivesGrace", "TrapShutdownMidResponse", "TrapShutdownDuringConnect"]
+TRAPS = ["TrapAcceptedDuringShutdown", "TrapHandlerOutlivesGrace", "TrapShutdownMidResponse", "TrapShutdownDuringConnect",
+         "TrapShutdownAfterOwnerClose", "TrapShutdownAfterOwnerCloseIdle"]
 
 
 def run(ctx):
